@@ -698,25 +698,25 @@ def caller(func, a, b, **query_params):
     """
     # Supplement the query_parameters from the REST call with special items
     # extracted from `a` and `b`.
-    query_params.setdefault('a_url', a.request.url)
-    query_params.setdefault('b_url', b.request.url)
-    query_params.setdefault('a_body', a.body)
-    query_params.setdefault('b_body', b.body)
-    query_params.setdefault('a_headers', a.headers)
-    query_params.setdefault('b_headers', b.headers)
+    # NOTE: these names are reserved; values from the fetched responses always
+    # win over same-named parameters in the query string.
+    query_params['a_url'] = a.request.url
+    query_params['b_url'] = b.request.url
+    query_params['a_body'] = a.body
+    query_params['b_body'] = b.body
+    query_params['a_headers'] = a.headers
+    query_params['b_headers'] = b.headers
 
     # The differ's signature is a dependency injection scheme.
     sig = inspect.signature(func)
 
     raise_if_binary = not query_params.get('ignore_decoding_errors', False)
     if 'a_text' in sig.parameters:
-        query_params.setdefault(
-            'a_text',
-            _decode_body(a, 'a', raise_if_binary=raise_if_binary))
+        query_params['a_text'] = _decode_body(a, 'a',
+                                              raise_if_binary=raise_if_binary)
     if 'b_text' in sig.parameters:
-        query_params.setdefault(
-            'b_text',
-            _decode_body(b, 'b', raise_if_binary=raise_if_binary))
+        query_params['b_text'] = _decode_body(b, 'b',
+                                              raise_if_binary=raise_if_binary)
 
     kwargs = dict()
     for name, param in sig.parameters.items():
